@@ -1063,6 +1063,8 @@ def c15_judge(rec):
                     fails.append(f"model: a proper non-empty prefix is not open at its end: {t[-40:]!r}")
                 if k == "prefix" and okp:
                     fails.append(f"json.loads accepts a proper prefix of a written file: {t[-40:]!r}")
+            if l.get("is_dict") is False:
+                fails.append("the written JSON file is not a dict at top level")
         return fails
     if s.get("op") != "txt_fields":
         return fails
@@ -1081,13 +1083,13 @@ def c15_judge(rec):
 
 NONTRIVIAL_RULE["C15"] = "non-trivial: n>=2 vertices; distinct by canonical scenario"
 PROPS["C15"] = {"generate": c15_generate, "search": c15_search,
-                "strata": lambda rec: [f"op={rec['scn'].get('op')}", f"kind={rec['scn'].get('kind', rec['scn'].get('_kind'))}", f"names={rec['scn'].get('_style')}", f"txt={rec['scn'].get('txt')}", f"n={rec['scn'].get('n')}"],
+                "strata": lambda rec: ([f"json_shape_text_equal={isinstance(rec['lean'], dict) and any(isinstance(p, dict) and p.get('text') == rec['lean'].get('shape_text') for p in rec['py'].values())}"] if rec['scn'].get('op') == 'json_text' else []) + [f"op={rec['scn'].get('op')}", f"kind={rec['scn'].get('kind', rec['scn'].get('_kind'))}", f"names={rec['scn'].get('_style')}", f"txt={rec['scn'].get('txt')}", f"n={rec['scn'].get('n')}"],
                 "nontrivial": lambda rec: rec["scn"].get("n", len(rec["scn"].get("names", []))) >= 2,
                 "judge": c15_judge,
                 "level": "proof",
                 "rule": "graphs, divisors (magnitudes up to 10^30, also results of CFLaplacian.apply), partial/full orientations, sparse/dense scripts with plain, Unicode, long, blank-containing, digit-like and hostile names; dict (through json text), JSON file and TXT file round trips compared observationally with the original; fault enumeration per written file: byte-prefix truncations (quick: 64 evenly spaced + last 16; thorough: all) and single-byte corruptions (quick 48 random; thorough every position x 3 values): must not raise, JSON proper prefixes must read None, anything returned must be a well-formed object; missing files read None",
                 "theorems": ["graph_dict_roundtrip", "edge_list_canonical", "divisor_dict_roundtrip", "script_dict_roundtrip", "decimal_roundtrip", "orientation_dict_roundtrip", "txt_fields_roundtrip", "txt_line_roundtrip", "txt_int_field_clean", "txt_record_roundtrip",
-                             "txt_graph_file_roundtrip", "txt_divisor_file_roundtrip", "txt_orientation_file_roundtrip", "txt_script_file_roundtrip", "txt_int_roundtrip", "json_truncation_open", "txt_graph_object_roundtrip", "txt_divisor_object_roundtrip", "txt_script_object_roundtrip", "txt_orientation_object_roundtrip"]}
+                             "txt_graph_file_roundtrip", "txt_divisor_file_roundtrip", "txt_orientation_file_roundtrip", "txt_script_file_roundtrip", "txt_int_roundtrip", "json_truncation_open", "json_truncation_open_any", "json_text_ascii", "txt_graph_object_roundtrip", "txt_divisor_object_roundtrip", "txt_script_object_roundtrip", "txt_orientation_object_roundtrip"]}
 
 
 # ---- C19
